@@ -281,6 +281,11 @@ pub fn make_subset(n: usize, lo: usize, spec: SubsetSpec) -> Vec<usize> {
         }
     }
 }
+/// the `extra` value for which `make_subset` yields exactly lo + k members (k < len)
+pub fn extra_for(k: usize, len: usize) -> u16 {
+    if len == 0 { return 0; }
+    ((((k as u64) << 16) + len as u64 - 1) / len as u64).min(65535) as u16
+}
 pub fn subset_is_prefix(s: &[usize]) -> bool {
     s.iter().enumerate().all(|(i, v)| i == *v)
 }
